@@ -97,7 +97,7 @@ def r_main_wiring(ck: Checker) -> None:
                 and isinstance(val.ops[0], ast.In)
                 and isinstance(val.left, ast.Constant)
                 and val.left.value == flag
-                and unparse(val.comparators[0]) == f"{args_name}.enable"
+                and (unparse(val.comparators[0]) == f"{args_name}.enable" or it.texts(call, val.comparators[0]) == it.texts(call, ast.parse(f"{args_name}.enable", mode="eval").body))  # also through a local
             )
         ck.add(f"optimize({flag}=...)", ok, main, call, f"keyword {flag} is bound to `{text}`, expected `'{flag}' in {args_name}.enable`",
                "a trait named on the command line must switch on exactly the trait of the same name")
